@@ -149,6 +149,10 @@ func checkC09(c *Ctx) {
 	c.guard(p, "C09.guard", "FourQ DH: result must be on the curve", sh, GuardSpec{Assumes: []Assume{calleeAssume(latFalse, -1, "(*ecc/fourq.Point).IsOnCurve")}})
 
 	// ---- group package ----
+	// NIST-curve scalars: a value not below the group order is a second encoding of its residue
+	ws := p.Func("group", "wScl", "UnmarshalBinary")
+	c.guard(p, "C09.guard", "a scalar not below the group order is rejected", ws, GuardSpec{Assumes: []Assume{calleeAssume(latInt(1), -1, "(*math/big.Int).Cmp")}})
+	c.guard(p, "C09.guard", "a scalar equal to the group order is rejected", ws, GuardSpec{Assumes: []Assume{calleeAssume(latInt(0), -1, "(*math/big.Int).Cmp")}})
 	we := p.Func("group", "wElt", "UnmarshalBinary")
 	c.guardEachSite(p, "C09.guard", "NIST-curve element must decode (on curve, canonical) via crypto/elliptic", we, 0, latNil, "crypto/elliptic.Unmarshal", "crypto/elliptic.UnmarshalCompressed")
 	c.lenReject(p, "C09.len", we, "b", false)
